@@ -4,7 +4,7 @@ from .progfam import *
 
 def run(tier, seed):
     return run_prog_property(
-        "C10", ["scoping"], tier, seed, verdict_fams=("scoping",), trace_fams=("scoping",),
+        "C10", ["scoping", "arraypat"], tier, seed, verdict_fams=("scoping", "arraypat"), trace_fams=("scoping",),
         rule="TLC enumerates binding structures (MC_Scoping.tla): blocks nested to depth 2-3 whose statements are drawn from 12 "
              "binder shapes over the two names a, b (plain, tuple, array, nested and ignore patterns, right-hand sides that read "
              "the old bindings, inner blocks whose bindings must vanish, match arms binding a or b, calls of functions whose "
